@@ -63,12 +63,20 @@ def catalogue():
   sh = sp.TextShadowType.Shadow
   add("TextShadow", sp.SpecialValues.none, sp.TextShadowType((sh(L(1, U.em), L(1, U.em)),)),
       sp.TextShadowType((sh(L(2, U.px), L(2, U.px), L(1, U.px), red), sh(L(10, U.pct), L(10, U.pct), None, blue))),
-      sp.TextShadowType((sh(L(0.1, U.c), L(0.1, U.c), L(0.1, U.c)), sh(L(1, U.rh), L(1, U.rw)), sh(L(1, U.em), L(1, U.em), None, red))))
+      sp.TextShadowType((sh(L(0.1, U.c), L(0.1, U.c), L(0.1, U.c)), sh(L(1, U.rh), L(1, U.rw)), sh(L(1, U.em), L(1, U.em), None, red))),
+      # a longer list in which one shadow occurs twice (and once more as a value-equal 2.0)
+      sp.TextShadowType((sh(L(2, U.px), L(2, U.px)), sh(L(1, U.em), L(1, U.em), None, red), sh(L(2, U.px), L(2, U.px)), sh(L(2.0, U.px), L(2.0, U.px)),
+                         sh(L(3, U.pct), L(3, U.pct), L(1, U.pct), blue))))
   add("UnicodeBidi", sp.UnicodeBidiType.embed, sp.UnicodeBidiType.bidiOverride)
   add("Visibility", sp.VisibilityType.hidden, sp.VisibilityType.visible)
   add("WrapOption", sp.WrapOptionType.noWrap, sp.WrapOptionType.wrap)
   add("WritingMode", sp.WritingModeType.tbrl, sp.WritingModeType.tblr, sp.WritingModeType.rltb, sp.WritingModeType.lrtb)
   return vals, index
+
+
+def _unit(D):
+  """Ticks per second for drawing offsets - capped, so that a grid finer than a nanosecond keeps small tick numbers."""
+  return D // 2 if D < 10 ** 6 else 3
 
 
 def decorate(ad, rng, index, p_style=0.35, p_anim=0.2, nonzero_offsets=True):
@@ -78,7 +86,7 @@ def decorate(ad, rng, index, p_style=0.35, p_anim=0.2, nonzero_offsets=True):
   D = ad["D"]
 
   def t_opt():
-    return NONE_T if rng.random() < 0.3 else 2 * rng.randrange(0, 6 * (D // 2) + 1)
+    return NONE_T if rng.random() < 0.3 else 2 * rng.randrange(0, 6 * _unit(D) + 1)
 
   def some_styles(p):
     out = []
@@ -100,12 +108,29 @@ def decorate(ad, rng, index, p_style=0.35, p_anim=0.2, nonzero_offsets=True):
   if rng.random() < 0.3:
     # the same (value-equal) style animation step on several elements with different begin times
     prop = rng.choice(props)
-    shared = [prop, rng.choice(index[prop]), 2 * rng.randrange(0, 3 * (D // 2) + 1), t_opt()]
+    shared = [prop, rng.choice(index[prop]), 2 * rng.randrange(0, 3 * _unit(D) + 1), t_opt()]
     cands = [k for k in range(ad["n"]) if ad["kind"][k] in ("p", "span", "div")]
     for k in rng.sample(cands, min(len(cands), rng.randint(2, 3))):
       ad["anim_styles"][k] = ad["anim_styles"][k] + [list(shared)]
       if ad["b"][k] == NONE_T and rng.random() < 0.7:
-        ad["b"][k] = 2 * rng.randrange(1, 4 * (D // 2) + 1)
+        ad["b"][k] = 2 * rng.randrange(1, 4 * _unit(D) + 1)
+  if rng.random() < 0.06:
+    # a long animation schedule on ONE element (word-by-word highlighting): dozens of steps on two properties, written in an
+    # order that is not chronological, with a whole-duration step after them - the step that is active AND last in document
+    # order decides
+    cands = [k for k in range(ad["n"]) if ad["kind"][k] in ("p", "span")]
+    if cands:
+      k = rng.choice(cands)
+      p1, p2 = rng.sample(props, 2)
+      steps = []
+      nsteps = rng.randint(25, 60)
+      for j in range(nsteps):
+        steps.append([rng.choice([p1, p1, p2]), rng.choice(index[p1]) if False else None, 2 * j, 2 * j + 2 * rng.randint(1, 3)])
+      for stp in steps:
+        stp[1] = rng.choice(index[stp[0]])
+      rng.shuffle(steps)
+      steps.append([p1, rng.choice(index[p1]), rng.choice([NONE_T, 0]), NONE_T if rng.random() < 0.5 else 2 * nsteps])
+      ad["anim_styles"][k] = steps
   ad["rstyles"] = [some_styles(0.7) for _ in range(ad["nr"])]
   ad["ranim_styles"] = [some_anims(0.4) for _ in range(ad["nr"])]
   # Display is modelled by disp/anim of the abstract document: keep it out of the decorations
